@@ -122,6 +122,7 @@ func runC17(e *Env) Outcome {
 	cfgd := DrawCfg(t, false)
 	cfgd.EnforceRules = true
 	cfgd.Recursion = t.Bool("cfg-recursion")
+	cfgd.CamelCase = t.Bool("cfg-camelcase")
 	cfg := cfgd.Build()
 	bias := t.Intn("bias", len(biasNames))
 	shareObject := t.Chance("same-object", 1, 4)
